@@ -2,6 +2,7 @@ import OVM.Kernel.Frames
 import OVM.Spec.Fan
 import OVM.Props.C08
 import OVM.Refine.FanLemmas
+import OVM.Refine.RotInvHistory
 /-
   C09 — halffaces around an edge in rotational order; in-cell adjacency.
   Proved here about `reorder_incident_halffaces` as modelled (for every state):
@@ -36,9 +37,17 @@ import OVM.Refine.FanLemmas
   Towards `RotInv`: `reorder e'` changes nothing the order predicate reads at another edge
   (`reorder_elsewhere`), a sweep of `reorder` over pairwise different edges orders every single fan
   among them (`foldl_reorder_orders`), so `add_cell` leaves every affected single-fan edge ordered
-  (`addCellCore_orders_affected_partial`).  Not proved: untouched edges keep their order under
-  `add_cell` (their lists and successor maps are unchanged), the deleting mutators, garbage
-  collection and swaps; the history-level statement stays dynamic.
+  (`addCellCore_orders_affected_partial`).
+  `RotInv` — the rotational order as an INVARIANT OF HISTORIES (last section; lemmas in OVM/Refine/RotInv*.lean):
+  * `rotational_order_is_invariant` — after every history of valid calls (`Global.HistoryOK`: OVM/Refine/Global.lean)
+    from the empty mesh that does not use `set_face` / `set_cell`, in every deletion mode (deferred, immediate
+    index-shifting, immediate fast) and through every toggling of the bottom-up incidences, with edge and face
+    incidences on, every edge that is a single fan (`Fan.SingleFan`: closed ring or open chain, any valence) is in
+    rotational order (`Fan.FanOrdered`) with the mirrored reverse at the opposite halfedge;
+  * `rotational_order_step` — the one-operation form on top of `Global.GInv`; per operation: frames, `add_face`
+    (a new halfface is appended to the slot and has no cell on either side: the edge is NOT a single fan until cells
+    arrive, `dangling_face_not_single_fan`), `add_cell`, the four relabelings `swap_*`, `reorderAll` on enabling the
+    incidences, the unlink stages of `delete_cell/face_core`, the erase stages (renumbering), `collect_garbage`.
 -/
 namespace OVM.Props.C09
 open OVM OVM.Kernel
@@ -983,6 +992,87 @@ example :
         vDel := List.replicate 3 false, eDel := List.replicate 3 false, fDel := [false], cDel := [false],
         incCell := [some 0, some 0], vBU := false, eBU := false }
     ClosedSurface k (k.cellAt 0) ∧ k.adjHalffaceInCell 0 0 = none ∧ k.adjHalffaceInCell 1 1 = none := by
+  decide
+
+/-! ### `RotInv`: the rotational order is an invariant of histories -/
+
+/-- **one operation keeps the rotational order.**  State `k` satisfies the global invariant `Global.GInv`
+    (OVM/Refine/Global.lean: `WF ∧ oneCell ∧ Closed ∧ FlagInv`, kept by every valid call) and the rotational-order
+    invariant `Rot.RotInv` (with edge and face incidences on, every edge with two or more cached halffaces that is a
+    single fan — in the permutation-invariant form `Rot.SingleFanU`, implied by `Fan.SingleFan` — is
+    `Fan.FanOrdered`).  Then so does the state after any call with valid arguments (`Global.OpOK`) other than
+    `set_face` / `set_cell` (`Rot.RotCovered`): `add_*`, `set_edge`, `delete_*` in deferred, immediate
+    index-shifting and immediate fast mode, `swap_*_indices`, `collect_garbage`, the mode switches (including
+    `enable_deferred_deletion(false)`, which collects), enabling / disabling each kind of bottom-up incidences,
+    `clear`. -/
+theorem rotational_order_step (k : Kernel) (op : Op) (hg : Global.GInv k) (hok : Global.OpOK k op)
+    (hcov : Rot.RotCovered op) (hi : Rot.RotInv k) : Rot.RotInv (k.step op).1 :=
+  Rot.rotInv_step k op hg hok hcov hi
+
+/-- **C09, histories.**  After every history of valid calls from the empty mesh that does not use `set_face` /
+    `set_cell` — in any order, any deletion mode, any toggling of the incidences — with edge and face bottom-up
+    incidences on, every edge that currently is a single fan (`Fan.SingleFan`: a closed ring of cells or one open
+    chain ending in boundary halffaces, any valence) is in rotational order (`Fan.FanOrdered`): in the list of halfedge
+    `2e` every halfface with a successor is followed by the opposite of its in-cell neighbour across the edge
+    (`sFanNext` of OVM/Spec/Fan.lean), the last one is a boundary halfface or leads back to the first, and the list
+    of halfedge `2e+1` is the mirrored reverse. -/
+theorem rotational_order_is_invariant (ops : List Op) (hok : Global.HistoryOK {} ops)
+    (hcov : ∀ op ∈ ops, Rot.RotCovered op) (hbe : (run {} ops).eBU = true) (hbf : (run {} ops).fBU = true)
+    (e : Nat) (hs : Fan.SingleFan (run {} ops) e) : Fan.FanOrdered (run {} ops) e := by
+  obtain ⟨hr, hg⟩ := Rot.rotInv_reachable ops hok hcov
+  exact Rot.fanOrdered_of_rotInv hg hr hbe hbf e hs
+
+/-- the same from any state that satisfies the two invariants (e.g. a mesh that was read from a file and checked) -/
+theorem rotational_order_is_invariant_from (k : Kernel) (ops : List Op) (hg : Global.GInv k) (hi : Rot.RotInv k)
+    (hok : Global.HistoryOK k ops) (hcov : ∀ op ∈ ops, Rot.RotCovered op)
+    (hbe : (k.run ops).eBU = true) (hbf : (k.run ops).fBU = true)
+    (e : Nat) (hs : Fan.SingleFan (k.run ops) e) : Fan.FanOrdered (k.run ops) e := by
+  obtain ⟨hr, hg'⟩ := Rot.rotInv_run k ops hg hok hcov hi
+  exact Rot.fanOrdered_of_rotInv hg' hr hbe hbf e hs
+
+/-- **what `add_face` does to a fan**: a cached halfface that has no rotation successor and is nobody's successor
+    (a face hanging at the edge with no cell on either side — the state right after `add_face`, which appends the
+    new halfface to the slot, TopologyKernel.cc:213-218) rules out the single fan as soon as the slot holds a second
+    halfface; the invariant says nothing about that edge until cells are attached, and `add_cell` re-orders it. -/
+theorem dangling_face_not_single_fan (k : Kernel) (e x : Nat) (hx : x ∈ k.hfsOf (heOf e 0))
+    (hout : k.sFanNext (heOf e 0) x = none) (hin : ∀ z, k.sFanNext (heOf e 0) z ≠ some x)
+    (h2 : 2 ≤ (k.hfsOf (heOf e 0)).length) : ¬ Fan.SingleFan k e :=
+  fun hs => Rot.not_singleFanU_of_isolated hx hout hin h2 (Rot.singleFanU_of_singleFan k e hs)
+
+/-- the three tetrahedra around the edge (0,1) of the examples above, built from the empty mesh by API calls -/
+def ringOps : List Op :=
+  [.addNVertices 5, .addFaceV [0, 1, 2], .addFaceV [0, 1, 3], .addFaceV [0, 1, 4], .addFaceV [0, 2, 3],
+   .addFaceV [1, 2, 3], .addFaceV [0, 3, 4], .addFaceV [1, 3, 4], .addFaceV [0, 4, 2], .addFaceV [1, 4, 2],
+   .addCell true [1, 2, 7, 8], .addCell true [3, 4, 11, 12], .addCell true [5, 0, 15, 16]]
+
+set_option maxRecDepth 1000000 in
+/-- non-vacuity of `rotational_order_is_invariant`: the history is valid and covered; after the three `add_cell`
+    the edge 0 is a closed ring with slot `[4, 2, 0]`; deleting cell 0 (deferred) leaves an OPEN CHAIN — a single
+    fan that is not a closed ring — whose slot has been re-ordered to `[0, 4, 2]` (boundary halfface 2 last), with the
+    mirrored reverse `[3, 5, 1]` at the opposite halfedge: in rotational order -/
+example :
+    Global.historyOKB {} (ringOps ++ [.deleteCell 0]) = true ∧ (∀ op ∈ ringOps ++ [.deleteCell 0], Rot.RotCovered op) ∧
+    Fan.ClosedRing (run {} ringOps) 0 ∧ (run {} ringOps).hfsOf 0 = [4, 2, 0] ∧
+    Fan.SingleFan (run {} (ringOps ++ [.deleteCell 0])) 0 ∧ ¬ Fan.ClosedRing (run {} (ringOps ++ [.deleteCell 0])) 0 ∧
+    Fan.FanOrdered (run {} (ringOps ++ [.deleteCell 0])) 0 ∧
+    (run {} (ringOps ++ [.deleteCell 0])).hfsOf 0 = [0, 4, 2] ∧ (run {} (ringOps ++ [.deleteCell 0])).hfsOf 1 = [3, 5, 1] := by
+  decide
+
+set_option maxRecDepth 1000000 in
+/-- the same through the other paths: immediate (fast) deletion; a relabeling followed by a collecting
+    `collect_garbage` (face 0 becomes face 8: the slot reads `[16, 4, 2]`); and `add_face` at the edge of the open
+    chain — the new halfface 18 is appended after the boundary halfface and the edge is no single fan any more -/
+example :
+    Global.historyOKB {} (ringOps ++ [.enableDeferred false, .deleteCell 0]) = true ∧
+    Fan.SingleFan (run {} (ringOps ++ [.enableDeferred false, .deleteCell 0])) 0 ∧
+    Fan.FanOrdered (run {} (ringOps ++ [.enableDeferred false, .deleteCell 0])) 0 ∧
+    (run {} (ringOps ++ [.enableDeferred false, .deleteCell 0])).hfsOf 0 = [0, 4, 2] ∧
+    Global.historyOKB {} (ringOps ++ [.deleteCell 0, .swapFace 0 8, .collectGarbage]) = true ∧
+    Fan.SingleFan (run {} (ringOps ++ [.deleteCell 0, .swapFace 0 8, .collectGarbage])) 0 ∧
+    Fan.FanOrdered (run {} (ringOps ++ [.deleteCell 0, .swapFace 0 8, .collectGarbage])) 0 ∧
+    (run {} (ringOps ++ [.deleteCell 0, .swapFace 0 8, .collectGarbage])).hfsOf 0 = [16, 4, 2] ∧
+    (run {} (ringOps ++ [.deleteCell 0, .addVertex, .addFaceV [0, 1, 5]])).hfsOf 0 = [0, 4, 2, 18] ∧
+    ¬ Fan.SingleFan (run {} (ringOps ++ [.deleteCell 0, .addVertex, .addFaceV [0, 1, 5]])) 0 := by
   decide
 
 end OVM.Props.C09
